@@ -19,6 +19,11 @@ import (
 // in two independent baseline runs, so tests that print times, ports or other
 // environment-dependent text never decide anything.
 
+// CoreCorpusDirs are the corpus directories about the language core (the
+// quick tier runs these; library-bound directories such as cipher, io, exec
+// take seconds each and say little about compiler or VM settings).
+var CoreCorpusDirs = []string{"builtins", "cast", "compiler", "datamodel", "defer", "directives", "errors", "flow", "functions", "packages", "sort", "strings", "types"}
+
 // corpusSkip are directories whose tests talk to servers or databases.
 var corpusSkip = map[string]bool{"ai": true, "server": true, "sql": true, "tables": true}
 
@@ -176,7 +181,7 @@ type corpusRun map[string]map[string][]string // dir -> block key -> lines
 
 // corpusBatch runs every directory under (cfg, mode) in batch processes.
 func (e *engine) corpusBatch(wg *sync.WaitGroup, cfg Config, mode string, dirs []string, sink func(dir string, raw *Raw)) {
-	const dirsPerUnit = 3
+	const dirsPerUnit = 1
 
 	for lo := 0; lo < len(dirs); lo += dirsPerUnit {
 		hi := lo + dirsPerUnit
@@ -212,6 +217,20 @@ func (e *engine) corpus() {
 	}
 
 	dirs := corpusDirs(e.run.Repo)
+
+	if len(e.plan.CorpusDirs) > 0 {
+		var keep []string
+
+		for _, d := range dirs {
+			for _, w := range e.plan.CorpusDirs {
+				if d == w {
+					keep = append(keep, d)
+				}
+			}
+		}
+
+		dirs = keep
+	}
 
 	if re := os.Getenv("PDIFF_DIRS"); re != "" {
 		rx := regexp.MustCompile(re)
